@@ -52,6 +52,10 @@ type ParamInfo struct {
 func (e *Engine) newRun(fn *ssa.Function, name string) *run {
 	r := &run{eng: e, root: fn, rootName: name, counters: map[string]int{}, assumed: map[string]bool{},
 		heapSort: map[string]string{}, globDecl: map[*ssa.Global]string{}, usedCtr: map[string]bool{}, inlined: map[string]bool{}, depthCap: 5}
+	// ghost state variables exist from the start, so that every "assigns *" havoc reaches them
+	for g, so := range e.Prelude.Ghosts {
+		r.heapSort["GHOST_"+g] = so
+	}
 	// error sentinels in scope: those of the function's package and of the repo packages it imports
 	var root *types.Package
 	if fn != nil {
